@@ -282,7 +282,7 @@ def cells():
     out.append(Cell('linearity[2x2,psf 2x2]', 'c17:linearity', dict(H=2, W=2, kH=2, kW=2), domain='a', timeout_s=900, twin=False,
                     bounds='PSF, lambda > 0, two images and two scalars symbolic'))
     for (H, W, kH, kW) in [(2, 2, 2, 2), (2, 2, 1, 2), (1, 2, 1, 2)]:
-        out.append(Cell('inverse_at_zero[%dx%d,psf %dx%d]' % (H, W, kH, kW), 'c17:inverse_at_zero', dict(H=H, W=W, kH=kH, kW=kW), domain='a',
+        out.append(Cell('inverse_at_zero[%dx%d,psf %dx%d]' % (H, W, kH, kW), 'c17:inverse_at_zero', dict(H=H, W=W, kH=kH, kW=kW), domain='a', events='outside',
                         timeout_s=600, twin=False, bounds='PSF and one channel of X symbolic; lambda = 0'))
     for r in (1,):
         out.append(Cell('gaussian_unit_sum[r=%d]' % r, 'c17:gaussian_unit_sum', dict(radius=r), domain='a', twin=False,
